@@ -117,7 +117,7 @@ pub fn generate(tier: &str, rng: &mut Prng) -> Vec<Case> {
 
 pub fn oracle(op: &[&str], out: &str) -> Verdict {
     match op[0] {
-        "pk_from_bytes" | "sk_from_bytes" | "sig_from_bytes" | "verify" => {
+        "pk_from_bytes" | "sk_from_bytes" | "sig_from_bytes" | "verify" | "dec_seq" => {
             if out.starts_with("PANIC") {
                 Verdict::Fail(format!("{} panicked on untrusted bytes: {out}", op[0]))
             } else {
